@@ -28,6 +28,7 @@ RULE = (
 RULE += (" Further backends of the same class may use a second pipeline definition with another variable table; probes include a placeholder that only that table defines (fresh result: error).")
 RULE += (" Every rule is loaded with its own source location; rules and probes include a condition the grammar rejects and one naming a missing detection, so the compared error text carries the location of the rule it belongs to.")
 RULE += (" A quarter of the probes is followed by a correlation rule over the probe whose group-by fields are spelled like targets of the field mapping, and the pipeline has an item conditioned on field-name tracking for correlation rules.")
+RULE += (" The pipeline has a (nested) finalizer; a third of the cases builds all its pipelines from one definition dict object.")
 ASSUMPTIONS = [
     "results are compared as strings (same code, same configuration)",
     "the internal name of an added condition is random; it never appears in the compared output",
@@ -52,6 +53,7 @@ PIPELINE = {
     ],
 }
 # a second pipeline definition for further backends of the same class: other variable table
+PIPELINE["finalizers"] = [{"type": "nested", "finalizers": [{"type": "concat", "separator": " ;; "}]}]
 PIPELINE2 = dict(copy.deepcopy(PIPELINE), vars={"known": ["k9"], "other": ["o1", "o2"]})
 CFG = {"cs": False, "cs_shortcuts": False}
 
@@ -100,9 +102,11 @@ def _mk_class(cfg):
                                     "state_defaults": {"index": "none", "bstate": "off"}})
 
 
-def _mk_pipeline():
+def _mk_pipeline(definition=None):
+    """A pipeline from the definition; with `definition` given, from that very dict object (a caller that keeps its
+    parsed definition and builds several pipelines from it)."""
     from sigma.processing.pipeline import ProcessingPipeline
-    return ProcessingPipeline.from_dict(copy.deepcopy(PIPELINE))
+    return ProcessingPipeline.from_dict(definition if definition is not None else copy.deepcopy(PIPELINE))
 
 
 def _clear_caches():
@@ -136,6 +140,7 @@ def _probe(backend, doc, via: str):
             d_ = copy.deepcopy(doc)
             d_.pop("_with_correlation", None)
             res = backend.convert_rule(SigmaRule.from_dict(d_, source=src))
+        res = [res] if isinstance(res, str) else res  # a finalizer may join the queries into one text
         return ("ok", [norm(q) for q in res], [(r.title, type(e).__name__, norm(e)) for r, e in backend.errors])
     except Exception as e:  # noqa
         return ("raised", type(e).__name__, norm(e)[:200])
@@ -156,7 +161,10 @@ def check_case(case: dict) -> Outcome:
     fresh1 = _probe(_mk_class(cfg)(_mk_pipeline(), collect), probe, case["probe_via"])
     # history on shared objects
     K = _mk_class(cfg)
-    shared_pipeline = _mk_pipeline()
+    definition = copy.deepcopy(PIPELINE) if case.get("shared_definition") else None
+    if definition is not None:
+        out.label("pipelines-built-from-one-definition-object")
+    shared_pipeline = _mk_pipeline(definition)
     backends = [K(shared_pipeline, collect)]
     inits = []  # order of init events (backend index)
     failing = second_backend = False
@@ -170,7 +178,12 @@ def check_case(case: dict) -> Outcome:
                     backends.append(K(ProcessingPipeline.from_dict(copy.deepcopy(PIPELINE2)), collect))
                     hist.append(f"b{len(backends) - 1}=new(pipeline with other vars)")
                 else:
-                    backends.append(K(shared_pipeline if op[1] else _mk_pipeline(), collect))
+                    try:
+                        new_p = shared_pipeline if op[1] else _mk_pipeline(definition)
+                    except Exception as e:  # noqa - the first pipeline could be built from this definition
+                        out.fail(f"C15:pipeline-definition-not-reusable:{type(e).__name__}", f"history {hist}: building another pipeline from the same definition object fails: {e}")
+                        return out
+                    backends.append(K(new_p, collect))
                     hist.append(f"b{len(backends) - 1}=new({'shared' if op[1] else 'own'} pipeline)")
                 second_backend = True
             elif kind == "init":
@@ -249,7 +262,8 @@ def cases(draw):
             ops.append([k, draw(st.integers(0, 3)), draw(st.lists(st.integers(0, 3), min_size=1, max_size=3))])
     if draw(st.integers(0, 3)) == 0:
         probe["_with_correlation"] = True
-    return {"not_eq": not_eq, "docs": docs, "probe": probe, "ops": ops, "collect": draw(st.booleans()),
+    shared_definition = draw(st.integers(0, 2)) == 0
+    return {"shared_definition": shared_definition, "not_eq": not_eq, "docs": docs, "probe": probe, "ops": ops, "collect": draw(st.booleans()),
             "probe_backend": draw(st.integers(0, 3)), "probe_via": draw(st.sampled_from(["convert", "convert", "convert_rule"]))}
 
 
